@@ -28,6 +28,10 @@ def run(chk):
     zero_crossing_rules(chk)
     switched_rules(chk)
     sibling_defaults(chk, "R-ZC-STRICT", [ZC], neutral={"keep_adj_zeros": False, "tol": 0.0}, label="get_zero_crossings_array_indices")
+    from ..tyob import leading_zero_tests
+    _fi = chk.P.fn(ZC)
+    leading_zero_tests(chk, "R-ZC-STRICT", _fi, "all_zc_indices", "eqsig/fns/peaks_and_crossings.py:get_zero_crossings_array_indices",
+                       what="a missing index 0", minimum=0)
     chk.floor("R-ZC-STRICT", 8)
     chk.floor("R-TOL-SUB", 3)
     chk.floor("R-SW-COVER", 3)
@@ -57,10 +61,26 @@ def zero_crossing_rules(chk):
         chk.ob("R-ZC-STRICT", cc + "{zeros}", "exact zeros are `values == 0`", len(zeros) == 1, derived="%d `== 0` test(s) on the values%s" % (
             len(zeros), "; other test(s) of the series against a literal: %s" % [e.stmt for e in zcand] if zcand and not zeros else ""),
                loc=zeros[0].loc if zeros else (zcand[0].loc if zcand else fi.loc()), inconclusive=not zeros and not zcand)
-        adj = [e for e in cm if e.right.has_const() and e.right.const == 1 and "where-index" in e.left.tags]
+        # the test on the distances between successive zero positions: an array of index differences against a literal.  It must hold for
+        # a distance of 2 and fail for a distance of 1 (`> 1`, `>= 2`)
+        adj = [e for e in cm if e.right.has_const() and type(e.right.const) in (int, float) and "where-index" in e.left.tags and e.left.kind == K_ARRAY and
+               "diff" in e.left.tags]
+        _T = {"Gt": lambda a_, b_: a_ > b_, "GtE": lambda a_, b_: a_ >= b_, "Lt": lambda a_, b_: a_ < b_, "LtE": lambda a_, b_: a_ <= b_,
+              "Eq": lambda a_, b_: a_ == b_, "NotEq": lambda a_, b_: a_ != b_}
         if not kaz:
             chk.ob("R-ZC-STRICT", cc + "{adjacent zeros}", "a zero is kept iff its distance to the previous zero is > 1", len(adj) >= 1 and
-                   all(e.op == "Gt" for e in adj if e.left.kind == K_ARRAY), derived="%s" % [(e.op) for e in adj], loc=adj[0].loc if adj else fi.loc(), inconclusive=not adj)
+                   all(e.op in _T and _T[e.op](2, e.right.const) and not _T[e.op](1, e.right.const) for e in adj),
+                   derived="%s" % [(e.op, e.right.const) for e in adj], loc=adj[0].loc if adj else fi.loc(), inconclusive=not adj)
+            # the filter runs whenever there are two or more zeros and never on an empty set (np.take of nothing fails): its guard on the
+            # number of zeros holds for 2 and fails for 0
+            gd = [n for n in ast.walk(fi.node) if isinstance(n, ast.Compare) and len(n.ops) == 1 and isinstance(n.left, ast.Call) and
+                  ast.unparse(n.left.func) == "len" and isinstance(n.comparators[0], ast.Constant) and type(n.comparators[0].value) is int and
+                  any(isinstance(p_, ast.If) and any(n is y for y in ast.walk(p_.test)) and
+                      any(isinstance(y, ast.Name) and y.id == "keep_adj_zeros" for y in ast.walk(p_.test)) for p_ in ast.walk(fi.node))]
+            for n in gd[:1]:
+                opn, cv = type(n.ops[0]).__name__, n.comparators[0].value
+                chk.ob("R-ZC-STRICT", cc + "{adjacent guard}", "the adjacent-zero filter runs for two or more zeros and not for none", opn in _T and
+                       _T[opn](2, cv) and not _T[opn](0, cv), derived="len(...) %s %s" % (opn, cv), loc=fi.loc(n), stmt=norm_stmt(n))
         if not kaz:
             # the first zero of the series is always kept.  Two spellings are known: (i) the index differences are taken with a literal
             # to_begin > 1, so the first one passes `> 1`; (ii) a keep-mask allocated by np.ones whose elements [1:] are overwritten by the
@@ -113,6 +133,25 @@ def zero_crossing_rules(chk):
                derived="%d prepend(s) of 0, %d `[0] != 0` guard" % (len(ins0), len(guard)), loc=ins0[0].loc if ins0 else fi.loc(),
                inconclusive=not ins0 and not guard)
         expect(chk, "R-ZC-STRICT", cc + ".result", r.ret, dtype="int", sign="nonneg", kind=K_ARRAY, tags_has=["where-index"], loc=fi.loc())
+        if not kaz:
+            # no zero and no sign change at all: the result is [0] (index 0 is always reported), decided by `len(indices) == 0`
+            for n in ast.walk(fi.node):
+                if isinstance(n, ast.If) and isinstance(n.test, ast.Compare) and len(n.test.ops) == 1 and isinstance(n.test.left, ast.Call) and \
+                        ast.unparse(n.test.left.func) == "len" and isinstance(n.test.comparators[0], ast.Constant) and len(n.body) == 1 and \
+                        isinstance(n.body[0], ast.Return) and isinstance(n.body[0].value, ast.Call) and \
+                        ast.unparse(n.body[0].value.func).split(".")[-1] in ("array", "asarray") and n.body[0].value.args and \
+                        isinstance(n.body[0].value.args[0], (ast.List, ast.Tuple)):
+                    lit = [e_.value if isinstance(e_, ast.Constant) else "?" for e_ in n.body[0].value.args[0].elts]
+                    chk.ob("R-ZC-STRICT", c + "{nothing found}", "with no zero and no crossing the result is [0], decided by len(indices) == 0",
+                           isinstance(n.test.ops[0], ast.Eq) and n.test.comparators[0].value == 0 and lit == [0],
+                           derived="%s -> %s" % (" ".join(ast.unparse(n.test).split()), lit), loc=fi.loc(n), stmt=norm_stmt(n.test))
+            # the product series is led by values[0] so that its positions are sample positions
+            for e in r.events("lib-call", ZC):
+                if e.name == "numpy.insert" and len(e.args) >= 3 and alg_degree(e.args[0].a(R)) == Exp(2) and e.args[1].has_const() and e.args[1].const == 0:
+                    v_ = e.args[2]
+                    chk.ob("R-ZC-STRICT", c + "{leading entry}", "the product series is led by the first sample, values[0]",
+                           isinstance(v_.note, tuple) and v_.note[:1] == ("first-of",) and "p:values" in v_.tags,
+                           derived="note %s" % (v_.note,), loc=e.loc, stmt=e.stmt)
     # tolerance
     r = analyse(chk, ZC, lambda I, st, fi: dict(values=rec_array("values"), tol=AV(kind=K_SCALAR, dtype="real", shape=(), sign=S_POS, origin=frozenset(["lit"]),
                                                                                tags=frozenset(["p:tol"]), note="pyscalar")))
